@@ -46,36 +46,42 @@ Record mstate := {
   connsubs : list conn;                                 (* connections with a standing conn-event subscription *)
   settled_gone : list conn;                             (* closed connections for which a quiescent point has passed *)
   accreq : list (nat * (conn * rid));                   (* access requests by request number *)
-  lastacc : list (conn * (rid * bool));                 (* latest access verdict per connection and resource (true = get granted) *)
+  lastacc : list (conn * (rid * option nat));           (* latest access answer per connection and resource: None = get granted, Some code = refused with that error code *)
+  reqpos : list (conn * (nat * nat));                   (* position at which each outstanding request was sent *)
   resetting : list (rid * option nat);                  (* resources whose reset re-fetch is under way, with the re-fetch request once seen *)
   due : list rid;                                       (* loaded resources matched by a system reset whose reset task has not started yet *)
   task_open : option rid                                (* the reset task of this resource is being processed and has started nothing so far *)
 }.
 
 Definition mstate0 : mstate :=
-  {| clients := []; reqs := []; stream := []; ptrs := []; viols := []; pos := 0; gone := []; mqsubs := []; fetched := []; connsubs := []; settled_gone := []; accreq := []; lastacc := []; resetting := []; due := []; task_open := None |}.
-
-Definition last_verdict (st : mstate) (c : conn) (r : rid) : option bool :=
-  match find (fun x => Nat.eqb (fst x) c && Nat.eqb (fst (snd x)) r) (lastacc st) with Some x => Some (snd (snd x)) | None => None end.
+  {| clients := []; reqs := []; stream := []; ptrs := []; viols := []; pos := 0; gone := []; mqsubs := []; fetched := []; connsubs := []; settled_gone := []; accreq := []; lastacc := []; reqpos := []; resetting := []; due := []; task_open := None |}.
 
 Definition get_client (st : mstate) (c : conn) : client :=
   match lookup c (clients st) with Some cl => cl | None => client0 end.
 
 Definition set_client (st : mstate) (c : conn) (cl : client) : mstate :=
-  {| clients := set_k c cl (clients st); reqs := reqs st; stream := stream st; ptrs := ptrs st; viols := viols st; pos := pos st; gone := gone st; mqsubs := mqsubs st; fetched := fetched st; connsubs := connsubs st; settled_gone := settled_gone st; accreq := accreq st; lastacc := lastacc st; resetting := resetting st; due := due st; task_open := task_open st |}.
+  {| clients := set_k c cl (clients st); reqs := reqs st; stream := stream st; ptrs := ptrs st; viols := viols st; pos := pos st; gone := gone st; mqsubs := mqsubs st; fetched := fetched st; connsubs := connsubs st; settled_gone := settled_gone st; accreq := accreq st; lastacc := lastacc st; reqpos := reqpos st; resetting := resetting st; due := due st; task_open := task_open st |}.
 
 Definition add_viol (st : mstate) (k : vkind) (c : conn) (r : rid) : mstate :=
   {| clients := clients st; reqs := reqs st; stream := stream st; ptrs := ptrs st;
-     viols := viols st ++ [{| v_kind := k; v_c := c; v_r := r; v_pos := pos st |}]; pos := pos st; gone := gone st; mqsubs := mqsubs st; fetched := fetched st; connsubs := connsubs st; settled_gone := settled_gone st; accreq := accreq st; lastacc := lastacc st; resetting := resetting st; due := due st; task_open := task_open st |}.
+     viols := viols st ++ [{| v_kind := k; v_c := c; v_r := r; v_pos := pos st |}]; pos := pos st; gone := gone st; mqsubs := mqsubs st; fetched := fetched st; connsubs := connsubs st; settled_gone := settled_gone st; accreq := accreq st; lastacc := lastacc st; reqpos := reqpos st; resetting := resetting st; due := due st; task_open := task_open st |}.
 
 Definition set_reqs (st : mstate) (q : list (conn * (nat * (rkind * rid * Z)))) : mstate :=
-  {| clients := clients st; reqs := q; stream := stream st; ptrs := ptrs st; viols := viols st; pos := pos st; gone := gone st; mqsubs := mqsubs st; fetched := fetched st; connsubs := connsubs st; settled_gone := settled_gone st; accreq := accreq st; lastacc := lastacc st; resetting := resetting st; due := due st; task_open := task_open st |}.
+  {| clients := clients st; reqs := q; stream := stream st; ptrs := ptrs st; viols := viols st; pos := pos st; gone := gone st; mqsubs := mqsubs st; fetched := fetched st; connsubs := connsubs st; settled_gone := settled_gone st; accreq := accreq st; lastacc := lastacc st; reqpos := reqpos st; resetting := resetting st; due := due st; task_open := task_open st |}.
 Definition set_ptrs (st : mstate) (p : list (conn * (rid * list nat))) : mstate :=
-  {| clients := clients st; reqs := reqs st; stream := stream st; ptrs := p; viols := viols st; pos := pos st; gone := gone st; mqsubs := mqsubs st; fetched := fetched st; connsubs := connsubs st; settled_gone := settled_gone st; accreq := accreq st; lastacc := lastacc st; resetting := resetting st; due := due st; task_open := task_open st |}.
+  {| clients := clients st; reqs := reqs st; stream := stream st; ptrs := p; viols := viols st; pos := pos st; gone := gone st; mqsubs := mqsubs st; fetched := fetched st; connsubs := connsubs st; settled_gone := settled_gone st; accreq := accreq st; lastacc := lastacc st; reqpos := reqpos st; resetting := resetting st; due := due st; task_open := task_open st |}.
 Definition set_stream (st : mstate) (s : list (rid * list sevent)) : mstate :=
-  {| clients := clients st; reqs := reqs st; stream := s; ptrs := ptrs st; viols := viols st; pos := pos st; gone := gone st; mqsubs := mqsubs st; fetched := fetched st; connsubs := connsubs st; settled_gone := settled_gone st; accreq := accreq st; lastacc := lastacc st; resetting := resetting st; due := due st; task_open := task_open st |}.
+  {| clients := clients st; reqs := reqs st; stream := s; ptrs := ptrs st; viols := viols st; pos := pos st; gone := gone st; mqsubs := mqsubs st; fetched := fetched st; connsubs := connsubs st; settled_gone := settled_gone st; accreq := accreq st; lastacc := lastacc st; reqpos := reqpos st; resetting := resetting st; due := due st; task_open := task_open st |}.
 Definition bump (st : mstate) : mstate :=
-  {| clients := clients st; reqs := reqs st; stream := stream st; ptrs := ptrs st; viols := viols st; pos := S (pos st); gone := gone st; mqsubs := mqsubs st; fetched := fetched st; connsubs := connsubs st; settled_gone := settled_gone st; accreq := accreq st; lastacc := lastacc st; resetting := resetting st; due := due st; task_open := task_open st |}.
+  {| clients := clients st; reqs := reqs st; stream := stream st; ptrs := ptrs st; viols := viols st; pos := S (pos st); gone := gone st; mqsubs := mqsubs st; fetched := fetched st; connsubs := connsubs st; settled_gone := settled_gone st; accreq := accreq st; lastacc := lastacc st; reqpos := reqpos st; resetting := resetting st; due := due st; task_open := task_open st |}.
+
+Definition set_acc (st : mstate) (ar : list (nat * (conn * rid))) (la : list (conn * (rid * option nat))) : mstate :=
+  {| clients := clients st; reqs := reqs st; stream := stream st; ptrs := ptrs st; viols := viols st; pos := pos st;
+     gone := gone st; mqsubs := mqsubs st; fetched := fetched st; connsubs := connsubs st; settled_gone := settled_gone st; accreq := ar; lastacc := la; reqpos := reqpos st; resetting := resetting st; due := due st; task_open := task_open st |}.
+Definition set_reqpos (st : mstate) (rp : list (conn * (nat * nat))) : mstate :=
+  {| clients := clients st; reqs := reqs st; stream := stream st; ptrs := ptrs st; viols := viols st; pos := pos st;
+     gone := gone st; mqsubs := mqsubs st; fetched := fetched st; connsubs := connsubs st; settled_gone := settled_gone st;
+     accreq := accreq st; lastacc := lastacc st; reqpos := rp; resetting := resetting st; due := due st; task_open := task_open st |}.
 
 Definition stream_of (st : mstate) (r : rid) : list sevent :=
   match lookup r (stream st) with Some s => s | None => [] end.
@@ -197,7 +203,7 @@ Definition check_served_hook (st : mstate) (c : conn) (rs : rset) : mstate :=
                                else {| clients := clients s; reqs := reqs s; stream := stream s; ptrs := ptrs s;
                                        viols := viols s ++ [{| v_kind := VServedUnsubscribed; v_c := c; v_r := fst x; v_pos := pos s |}];
                                        pos := pos s; gone := gone s; mqsubs := mqsubs s; fetched := fetched s;
-                                       connsubs := connsubs s; settled_gone := settled_gone s; accreq := accreq s; lastacc := lastacc s; resetting := resetting s; due := due s; task_open := task_open s |}
+                                       connsubs := connsubs s; settled_gone := settled_gone s; accreq := accreq s; lastacc := lastacc s; reqpos := reqpos s; resetting := resetting s; due := due s; task_open := task_open s |}
                         end) rs st.
 
 Definition merge_into (st : mstate) (c : conn) (rs : rset) : mstate :=
@@ -213,6 +219,8 @@ Definition upd_held (st : mstate) (c : conn) (r : rid) (d : rdata) : mstate :=
 Definition count_of (extra : Z) : Z := if Z.eqb extra 0 then 1%Z else extra.
 
 Definition on_resp (st : mstate) (c : conn) (id : nat) (ok : bool) (rs : rset) (ridres : option rid) (code : nat) : mstate :=
+  let sent_at := match find (fun x => Nat.eqb (fst x) c && Nat.eqb (fst (snd x)) id) (reqpos st) with Some x => snd (snd x) | None => 0 end in
+  let st := set_reqpos st (filter (fun x => negb (Nat.eqb (fst x) c && Nat.eqb (fst (snd x)) id)) (reqpos st)) in
   let '(rq, rest) := take_req c id (reqs st) in
   match rq with
   | None => add_viol st VUnrequested c id
@@ -225,8 +233,9 @@ Definition on_resp (st : mstate) (c : conn) (id : nat) (ok : bool) (rs : rset) (
           let cl := get_client st c in
           finish_frame (set_client st c (with_direct cl r (S (dcount cl r)))) c
       | KGet, true =>
-          (* the resources of a get are complete on their own; they are not retained *)
-          let st := merge_into st c rs in
+          (* the resources of a get are complete on their own; they are not retained and no events are expected for them *)
+          let st := check_served_hook st c rs in
+          let st := (let cl := get_client st c in set_client st c (with_held cl (merge_set rs (held cl)))) in
           let cl := get_client st c in
           let tmp := with_direct cl r (S (dcount cl r)) in
           let st := match dangling (pending_of st c) tmp with [] => st | x :: _ => add_viol st VDangling c x end in
@@ -252,13 +261,19 @@ Definition on_resp (st : mstate) (c : conn) (id : nat) (ok : bool) (rs : rset) (
               let cl := get_client st c in
               (* a resource response subscribes the client, unless the resource came as an error entry because the
                  access request for it was not granted (then the client is left without direct subscription) *)
-              let is_err := match lookup r' rs with Some (RErr _) => true | _ => false end in
-              let denied := match last_verdict st c r' with Some false => true | _ => false end in
+              let ecode := match lookup r' rs with Some (RErr code) => Some code | _ => None end in
+              let is_err := match ecode with Some _ => true | None => false end in
+              (* ... recognised by the latest access answer for (c, r') being a refusal that carries the entry's error code *)
+              let denied := match find (fun x => Nat.eqb (fst x) c && Nat.eqb (fst (snd x)) r') (lastacc st), ecode with
+                            | Some (_, (_, Some acode)), Some code => Nat.eqb code acode
+                            | _, _ => false
+                            end in
               let cl := if is_err && denied then cl else with_direct cl r' (S (dcount cl r')) in
               finish_frame (set_client st c cl) c
           | None => st
           end
-      | (KSub | KGet), false => finish_frame st c     (* the request no longer retains anything *)
+      | (KSub | KGet), false =>
+          finish_frame st c     (* the request no longer retains anything *)
       | _, _ => st
       end
   end.
@@ -281,21 +296,18 @@ Definition frame_conn (e : tev) : option conn :=
   end.
 
 Definition set_gone (st : mstate) (c : conn) : mstate :=
-  {| clients := clients st; reqs := reqs st; stream := stream st; ptrs := ptrs st; viols := viols st; pos := pos st; gone := c :: gone st; mqsubs := mqsubs st; fetched := fetched st; connsubs := connsubs st; settled_gone := settled_gone st; accreq := accreq st; lastacc := lastacc st; resetting := resetting st; due := due st; task_open := task_open st |}.
+  {| clients := clients st; reqs := reqs st; stream := stream st; ptrs := ptrs st; viols := viols st; pos := pos st; gone := c :: gone st; mqsubs := mqsubs st; fetched := fetched st; connsubs := connsubs st; settled_gone := settled_gone st; accreq := accreq st; lastacc := lastacc st; reqpos := reqpos st; resetting := resetting st; due := due st; task_open := task_open st |}.
 
 Definition set_cache (st : mstate) (ms fs : list rid) : mstate :=
   {| clients := clients st; reqs := reqs st; stream := stream st; ptrs := ptrs st; viols := viols st; pos := pos st;
-     gone := gone st; mqsubs := ms; fetched := fs; connsubs := connsubs st; settled_gone := settled_gone st; accreq := accreq st; lastacc := lastacc st; resetting := resetting st; due := due st; task_open := task_open st |}.
+     gone := gone st; mqsubs := ms; fetched := fs; connsubs := connsubs st; settled_gone := settled_gone st; accreq := accreq st; lastacc := lastacc st; reqpos := reqpos st; resetting := resetting st; due := due st; task_open := task_open st |}.
 Definition set_conns (st : mstate) (cs sg : list conn) : mstate :=
   {| clients := clients st; reqs := reqs st; stream := stream st; ptrs := ptrs st; viols := viols st; pos := pos st;
-     gone := gone st; mqsubs := mqsubs st; fetched := fetched st; connsubs := cs; settled_gone := sg; accreq := accreq st; lastacc := lastacc st; resetting := resetting st; due := due st; task_open := task_open st |}.
-Definition set_acc (st : mstate) (ar : list (nat * (conn * rid))) (la : list (conn * (rid * bool))) : mstate :=
-  {| clients := clients st; reqs := reqs st; stream := stream st; ptrs := ptrs st; viols := viols st; pos := pos st;
-     gone := gone st; mqsubs := mqsubs st; fetched := fetched st; connsubs := connsubs st; settled_gone := settled_gone st; accreq := ar; lastacc := la; resetting := resetting st; due := due st; task_open := task_open st |}.
+     gone := gone st; mqsubs := mqsubs st; fetched := fetched st; connsubs := cs; settled_gone := sg; accreq := accreq st; lastacc := lastacc st; reqpos := reqpos st; resetting := resetting st; due := due st; task_open := task_open st |}.
 Definition set_reset (st : mstate) (rs : list (rid * option nat)) (du : list rid) (tk : option rid) : mstate :=
   {| clients := clients st; reqs := reqs st; stream := stream st; ptrs := ptrs st; viols := viols st; pos := pos st;
      gone := gone st; mqsubs := mqsubs st; fetched := fetched st; connsubs := connsubs st; settled_gone := settled_gone st;
-     accreq := accreq st; lastacc := lastacc st; resetting := rs; due := du; task_open := tk |}.
+     accreq := accreq st; lastacc := lastacc st; reqpos := reqpos st; resetting := rs; due := du; task_open := tk |}.
 Definition set_resetting (st : mstate) (rs : list (rid * option nat)) : mstate := set_reset st rs (due st) (task_open st).
 Definition remove_rid (r : rid) (l : list rid) : list rid := filter (fun x => negb (Nat.eqb x r)) l.
 
@@ -337,7 +349,7 @@ Definition step (st : mstate) (e : tev) : mstate :=
       (* the client is gone: its outstanding requests need no answer any more *)
       let st := set_reqs st (filter (fun x => negb (Nat.eqb (fst x) c)) (reqs st)) in
       set_gone (set_ptrs (set_client st c client0) (filter (fun x => negb (Nat.eqb (fst x) c)) (ptrs st))) c
-  | TReq c id k r extra => set_reqs st ((c, (id, (k, r, extra))) :: reqs st)
+  | TReq c id k r extra => set_reqpos (set_reqs st ((c, (id, (k, r, extra))) :: reqs st)) ((c, (id, pos st)) :: reqpos st)
   | TRespOk c id rs => on_resp st c id true rs None 0
   | TRespRid c id r rs => on_resp st c id true rs (Some r) 0
   | TRespPayload c id => on_resp st c id true [] None 0
@@ -389,7 +401,9 @@ Definition step (st : mstate) (e : tev) : mstate :=
                  | SChange _ | SAdd _ _ | SRemove _ | SDelete => if in_window then SSkipped else ev
                  | _ => ev
                  end in
-      set_stream st (set_k r (stream_of st r ++ [ev']) (stream st))
+      let st := set_stream st (set_k r (stream_of st r ++ [ev']) (stream st)) in
+      (* a processed delete event unregisters the cached resource: a later subscriber fetches it anew *)
+      (match ev' with SDelete => set_cache st (mqsubs st) (remove_rid r (fetched st)) | _ => st end)
   | TSysReset res _ =>
       (* every subscribed resource matched by the reset gets a mark in its stream; a loaded one is due for a re-fetch *)
       fold_left (fun s r =>
@@ -456,6 +470,10 @@ Definition step (st : mstate) (e : tev) : mstate :=
       (* C11: nothing is left of a closed connection *)
       let st := fold_left (fun s c =>
                   let s := if existsb (fun ss => Nat.eqb (ss_c ss) c) subs then add_viol s VConnLeft c 0 else s in
+                  let s := match find (fun en => mem c (se_who en)) ents with
+                           | Some en => add_viol s VConnLeft c (se_r en)    (* still registered as a subscriber of a cache entry *)
+                           | None => s
+                           end in
                   if mem c (connsubs s) then add_viol s VConnLeft c 1 else s) (gone st) st in
       set_conns st (connsubs st) (gone st)
   | TMqSub r => set_cache st (r :: remove_rid r (mqsubs st)) (remove_rid r (fetched st))
@@ -484,6 +502,11 @@ Definition step (st : mstate) (e : tev) : mstate :=
                       (set_k r (stream_of st r ++ [SResetEnd]) (stream st))
       else st
   | TMqResp n r o =>
+      (* a re-fetch answered system.notFound deletes the cached resource *)
+      let st := match o with
+                | OErr 4 => if existsb (fun x => Nat.eqb (fst x) r) (resetting st) then set_cache st (mqsubs st) (remove_rid r (fetched st)) else st
+                | _ => st
+                end in
       let st := if existsb (fun x => Nat.eqb (fst x) r && match snd x with Some m => Nat.eqb m n | None => false end) (resetting st)
                 then set_stream (set_resetting st (filter (fun x => negb (Nat.eqb (fst x) r)) (resetting st)))
                                 (set_k r (stream_of st r ++ [SResetEnd]) (stream st))
@@ -491,7 +514,8 @@ Definition step (st : mstate) (e : tev) : mstate :=
       match lookup n (accreq st) with
       | Some (c, r) =>
           let v := match o with OAccess g _ => g | _ => false end in
-          set_acc st (accreq st) ((c, (r, v)) :: filter (fun x => negb (Nat.eqb (fst x) c && Nat.eqb (fst (snd x)) r)) (lastacc st))
+          let code := match o with OErr code => code | _ => 3 end in     (* 3 = system.accessDenied *)
+          set_acc st (accreq st) ((c, (r, if v then None else Some code)) :: filter (fun x => negb (Nat.eqb (fst x) c && Nat.eqb (fst (snd x)) r)) (lastacc st))
       | None => st
       end
   | TResetTask r => set_reset st (resetting st) (due st) (Some r)
